@@ -153,7 +153,8 @@ CheckSave(P, T, sm, s, ln) ==
 
 Depth(P, n) == P.depth[n]
 CheckQuiescent(P, T, S, ln) ==
-    (IF ln.gates = 0 /\ ln.timers = 0 /\ Len(ln.pending) > 0 THEN {"C02.stuck"} ELSE {})
+    (IF ln.gates = 0 /\ ln.timers = 0 /\ Len(ln.pending) > 0
+     THEN Feat(P, {"C02.stuck"}, {"C09.stuck"}, {"C10.stuck"}, {"C11.stuck"}) ELSE {})
     \cup
     (* with a suspended collaborator call (event callback, artifact save) a finished body is not yet a completed node *)
     (IF P.plain /\ Len(ln.pending) > 0 /\ ln.collab_gates = 0
